@@ -24,6 +24,18 @@ def insertion_sites(ctx, fi):
     """(node, owner expr, inserted expr) for every statement that makes an object an element of a child list"""
     nm = ctx.world.nm
     out = []
+    alias = {}
+    for n in ast.walk(fi.node):
+        if isinstance(n, ast.Assign) and len(n.targets) == 1 and isinstance(n.targets[0], ast.Name) and _is_children(nm, n.value):
+            alias[n.targets[0].id] = n.value.value
+    for n in ast.walk(fi.node):
+        if isinstance(n, ast.Call) and isinstance(n.func, ast.Attribute) and n.func.attr in GROW and isinstance(n.func.value, ast.Name) \
+                and n.func.value.id in alias and n.args:
+            out.append((n, alias[n.func.value.id], n.args[-1]))
+        if isinstance(n, ast.Assign):
+            for t in n.targets:
+                if isinstance(t, ast.Subscript) and isinstance(t.value, ast.Name) and t.value.id in alias and not isinstance(t.slice, ast.Slice):
+                    out.append((n, alias[t.value.id], n.value))
     for n in ast.walk(fi.node):
         if isinstance(n, ast.Call) and isinstance(n.func, ast.Attribute) and n.func.attr in GROW and _is_children(nm, n.func.value) and n.args:
             out.append((n, n.func.value.value, n.args[-1]))
@@ -202,7 +214,13 @@ def rule_r2(ctx, rep):
     s = eng.entry(fi, frozenset())
     h = ctx.hier
     # (i) every subscript of the child list holds inbounds
-    for r in s.ledger:
+    rows = list(s.ledger)
+    for (q, cf), sm in eng.memo.items():
+        f2 = prog.funcs.get(q)
+        if f2 is not None and f2.cls is not None and f2.cls.qname == NODE_Q and q != fi.qname and any(
+                isinstance(c, ast.Call) and any(tg.func is f2 for tg in ctx.world.resolve_call(ctx.world.types(fi), c)) for c in ast.walk(fi.node)):
+            rows += sm.ledger  # private helpers of shift, analysed under the facts of their call sites
+    for r in rows:
         if r["op"] in ("L[i]", "list element store"):
             rep.count("child-list subscripts in shift")
             ok = r["discharge"] != "ESCAPES"
@@ -210,7 +228,7 @@ def rule_r2(ctx, rep):
             if not ok:
                 rep.add("R2", fi.qname, r["construct"], "child-list position is not proven in bounds for the exact offset used: shifting "
                         "at the edge raises IndexError instead of leaving the child in place", r["loc"])
-    rep.floor("child-list subscripts in shift", 12)
+    rep.floor("child-list subscripts in shift", 4)
     # (iii) only the documented ValueError may escape
     for key, esc in s.escapes.items():
         if esc.cls == "IndexError" and esc.origin[0] == fi.qname:
@@ -228,13 +246,37 @@ def rule_r2(ctx, rep):
         raise AnalysisError("Node.shift: cannot single out the returned index variable")
     rvar = rvars.pop()
     swaps = {}
-    for n in ast.walk(fi.node):
+
+    def swap_indices(fn, n):
+        """(index expr a, index expr b) when statement n of function fn swaps two child-list positions"""
         if isinstance(n, ast.Assign) and len(n.targets) == 1 and isinstance(n.targets[0], ast.Tuple) and isinstance(n.value, ast.Tuple) \
                 and len(n.targets[0].elts) == 2 and len(n.value.elts) == 2:
             a, b = n.targets[0].elts
             if all(isinstance(x, ast.Subscript) and _is_children(nm, x.value) for x in (a, b)) \
                     and norm(a) == norm(n.value.elts[1]) and norm(b) == norm(n.value.elts[0]):
-                ia, ib = a.slice, b.slice
+                return a.slice, b.slice
+        return None
+
+    cand = []
+    for n in ast.walk(fi.node):
+        si = swap_indices(fi, n)
+        if si:
+            cand.append((n, si[0], si[1]))
+        if isinstance(n, ast.Expr) and isinstance(n.value, ast.Call):
+            for tg in ctx.world.resolve_call(ctx.world.types(fi), n.value):
+                H = tg.func
+                if H is None or H.cls is None or H.cls.qname != NODE_Q or H.qname == fi.qname:
+                    continue
+                body = [x for x in H.node.body if not (isinstance(x, ast.Expr) and isinstance(x.value, ast.Constant))]
+                if len(body) == 1 and swap_indices(H, body[0]):
+                    ha, hb = swap_indices(H, body[0])
+                    am = ctx.world.arg_map(tg, n.value)
+                    if isinstance(ha, ast.Name) and isinstance(hb, ast.Name) and ha.id in am and hb.id in am:
+                        cand.append((n, am[ha.id], am[hb.id]))
+                        rep.touch(H)
+    for (n, ia, ib) in cand:
+        if True:
+            if True:
                 if isinstance(ib, ast.Name) and ib.id == rvar:
                     ia, ib = ib, ia
                 if isinstance(ia, ast.Name) and ia.id == rvar:
@@ -267,6 +309,7 @@ def rule_r2(ctx, rep):
     rep.floor("swaps in shift", 4)
     # both failures precede every write
     writes = [n for n in ast.walk(fi.node) if isinstance(n, ast.Assign) and any(isinstance(t, (ast.Subscript, ast.Tuple)) for t in n.targets)]
+    writes += [n for (n, _a, _b) in cand if n not in writes]
     fails = [n for n in ast.walk(fi.node) if isinstance(n, ast.Raise)] + \
             [n for n in ast.walk(fi.node) if isinstance(n, ast.Call) and isinstance(n.func, ast.Attribute) and n.func.attr == "index"]
     md = MarkDomain()
